@@ -63,6 +63,8 @@ TNext ==
        \/ e.a = "call" /\ Take(e, CallFn(p, e.c, e.cmd, e.modes, e.t))
        \/ e.a = "sendres" /\ Take(e, SendResFn(p, e.ok = 1, e.modes, e.t))
        \/ e.a = "tick" /\ TimeoutEnabled(p) /\ e.t = p.hold.t0 + CmdTimeout /\ Take(e, TimeoutFn(p, e.modes, e.t))
+       \* a timer of the loop fired and nothing observable happened while the model has no timeout due: stuttering
+       \/ e.a = "tick" /\ e.out = <<>> /\ ~(TimeoutEnabled(p) /\ e.t >= p.hold.t0 + CmdTimeout) /\ UNCHANGED <<p, inflight>>
        \/ e.a = "cancel" /\ Take(e, CancelFn(p, e.c, e.modes, e.t))
        \/ e.a = "frame" /\ e.raised = 0 /\
              \E alt \in FrameAlts(p, [seq |-> e.seq, cmd |-> e.cmd, val |-> e.val], e.modes, e.t) : Take(e, alt)
